@@ -24,9 +24,10 @@ Fixpoint why_stmt (st : astmt) (li out X : list var) {struct st} : list (nat * n
       ++ map (fun x => (l, 2, x)) (common L li ++ (if raises_block body then common L X else [])) ++ why_block body li X
   | AFor l us tg ext L body =>
       map (fun x => (l, 1, x)) (missing us li ++ missing (minus (lin body li) tg) li ++ missing out li
-                                ++ match ext with Some x => missing [x] li | None => [] end)
+                                ++ missing ext li)
       ++ map (fun x => (l, 2, x)) (common L li ++ (if raises_block body then common L X else [])) ++ why_block body li X
   | ARaise l us => map (fun x => (l, 1, x)) (missing us li ++ missing X li)
+  | AWith l us ds body => map (fun x => (l, 1, x)) (missing us li ++ missing (minus (lin body out) ds) li) ++ why_block body out X
   | ATry body hs orelse final =>
       let Fn := lin final out in let Fx := lin final X in let E := lin orelse Fn in
       map (fun x => (0, 1, x)) (missing (lin body E) li)
